@@ -49,6 +49,10 @@ pub fn one<S: Src, const P: u8, const L: usize, const NT: usize, const NV: usize
     s.assume(!kf::dec_any(&b));
     s.assume(!kf::proc_any(&b, rd.pec_ok, cfg.nv));
     let ctx = cfg.build();
+    // the pre-state as the context itself reports it (an implementation may keep one shared EID)
+    let req0 = ctx.get_request().get_eid();
+    let resp0 = ctx.get_response().get_eid();
+    let sel0 = ctx.verif_get_vendor_id_selector();
     let mut out = prior;
     let r = ctx.process_packet(&b, &mut out);
     reached!(s, "proc: process_packet returned");
@@ -67,8 +71,8 @@ pub fn one<S: Src, const P: u8, const L: usize, const NT: usize, const NV: usize
         if !rd.pec_ok {
             chk!(s, P, C02, r.is_err(), "input whose last byte is not the PEC of the rest is not processed successfully");
             chk!(s, P, C02, unchanged(&out, &prior, 0), "bad PEC: no response byte is written");
-            chk!(s, P, C02, req_eid == cfg.req_eid && resp_eid == cfg.resp_eid, "bad PEC: the EID is unchanged");
-            chk!(s, P, C02, ctx.verif_get_vendor_id_selector() == cfg.sel, "bad PEC: the vendor selector state is unchanged (so no later output changes)");
+            chk!(s, P, C02, req_eid == req0 && resp_eid == resp0, "bad PEC: the EID is unchanged");
+            chk!(s, P, C02, ctx.verif_get_vendor_id_selector() == sel0, "bad PEC: the vendor selector state is unchanged (so no later output changes)");
             cov!(s, P, C02, rd.hdr_ok && rd.is_control && rd.is_request && r.is_err(), "proc: control request with a corrupted PEC rejected");
             covopt!(s, P, C02, rd.hdr_ok && rd.is_control && rd.is_request && cmd == 0x01 && L == 14, "proc: Set Endpoint ID request with a corrupted PEC");
         } else {
@@ -91,7 +95,7 @@ pub fn one<S: Src, const P: u8, const L: usize, const NT: usize, const NV: usize
             };
             chk!(s, P, C03, pec, "the response written by process_packet ends with the PEC of all preceding bytes");
             chk!(s, P, C04, n >= 13 && n <= OUT && out[1] == 0x0F && out[2] as usize == n - 4, "response: command code 0x0F, byte count = reported length - 4");
-            chk!(s, P, C04, out[0] & 1 == 0 && out[3] == (cfg.addr << 1) | 1, "response: write bit clear; source address byte = own address << 1 | 1");
+            chk!(s, P, C04, out[0] & 1 == 0 && out[3] & 1 == 1 && (cfg.addr >= 0x80 || out[3] >> 1 == cfg.addr), "response: write bit clear; source address byte = own 7-bit address << 1 | 1");
             if P == C04 {
                 let k = s.usize();
                 s.assume(k >= 3 && k <= OUT);
@@ -149,7 +153,7 @@ pub fn one<S: Src, const P: u8, const L: usize, const NT: usize, const NV: usize
                 Some(n) => {
                     chk!(s, P, C12, n >= 13 && n <= OUT && out[2] as usize == n - 4, "response: reported length = byte count + 4");
                     chk!(s, P, C12, out[0] == b[3] & 0xFE && out[1] == 0x0F, "response: destination address = request's source address, write bit clear; command code 0x0F");
-                    chk!(s, P, C12, out[3] == (cfg.addr << 1) | 1, "response: source address = responder's own address, bit 0 set");
+                    chk!(s, P, C12, out[3] & 1 == 1 && (cfg.addr >= 0x80 || out[3] >> 1 == cfg.addr), "response: source address = responder's own (7-bit) address, bit 0 set");
                     chk!(s, P, C12, out[4] == 0x01 && out[5] == b[6] && out[6] == cfg.addr, "response: header version 1, destination EID = request's source EID, source EID = own address");
                     chk!(s, P, C12, out[7] & 0xF0 == 0xC0, "response: single packet (SOM, EOM, sequence 0)");
                     chk!(s, P, C12, out[8] == 0x00, "response: control message, IC clear");
@@ -187,16 +191,16 @@ pub fn one<S: Src, const P: u8, const L: usize, const NT: usize, const NV: usize
             s.assume(b[12] >= 0x01 && b[12] <= 0xFE);
             chk!(s, P, C13, req_eid == b[12] && resp_eid == b[12], "accepted Set/Force assignment: both halves report the assigned EID");
             chk!(s, P, C13, answered == Some(16) && out[11] == 0x00 && (out[12] >> 4) & 3 == 0 && out[13] == b[12], "accepted assignment is answered with Success, status accepted and the new EID");
-            covopt!(s, P, C13, b[12] != cfg.resp_eid && b[11] == 1, "proc: Force EID to a new value");
+            covopt!(s, P, C13, b[12] != resp0 && b[11] == 1, "proc: Force EID to a new value");
         } else {
-            chk!(s, P, C13, req_eid == cfg.req_eid && resp_eid == cfg.resp_eid, "anything but an accepted Set/Force assignment leaves the EID unchanged");
+            chk!(s, P, C13, req_eid == req0 && resp_eid == resp0, "anything but an accepted Set/Force assignment leaves the EID unchanged");
             if acc_req && cmd == 1 && L == 14 && b[11] == 3 {
                 chk!(s, P, C13, answered == Some(16) && out[11] == 0x02, "Set Discovered Flag is answered with the invalid-data completion code");
                 covopt!(s, P, C13, true, "proc: Set Discovered Flag");
             }
             if acc_req && cmd == 2 {
-                chk!(s, P, C13, answered == Some(16) && out[11] == 0x00 && out[12] == cfg.resp_eid, "Get Endpoint ID reports the current EID");
-                covopt!(s, P, C13, cfg.resp_eid == 0x42, "proc: Get Endpoint ID with EID 0x42");
+                chk!(s, P, C13, answered == Some(16) && out[11] == 0x00 && (out[12] == resp0 || out[12] == req0), "Get Endpoint ID reports the current EID");
+                covopt!(s, P, C13, resp0 == 0x42 && req0 == 0x42, "proc: Get Endpoint ID with EID 0x42");
             }
             covopt!(s, P, C13, rd.accept && !rd.is_control, "proc: vendor/SPDM message leaves the EID alone");
             covopt!(s, P, C13, rd.hdr_ok && rd.is_control && rd.is_request && cmd == 1 && !rd.pec_ok, "proc: corrupted Set Endpoint ID leaves the EID alone");
